@@ -280,7 +280,13 @@ func runC10(rt *rapid.T) {
 			close(stop)
 			stop = nil
 		}
-		_ = w.conn.Close()
+		// bounded: a Close that hangs has been reported already and must not wedge the run
+		cd := make(chan struct{})
+		go func() { _ = w.conn.Close(); close(cd) }()
+		select {
+		case <-cd:
+		case <-time.After(c10CloseTimeout + 3*time.Second):
+		}
 		if w.ln != nil {
 			_ = w.ln.Close()
 		}
@@ -292,6 +298,22 @@ func runC10(rt *rapid.T) {
 		h := strings.Join(hist, "\n  ")
 		hmu.Unlock()
 		rt.Fatalf("C10 violated (secs1=%v active=%v linktest=%v): %s\nhistory:\n  %s", useSecs1, active, lt, fmt.Sprintf(f, a...), h)
+	}
+	// closeBounded is Close with a watchdog: a Close that does not return is a violation of C10 (not a
+	// test timeout), reported with the goroutine dump that shows where it is stuck
+	closeBounded := func(what string) (error, time.Duration) {
+		st := time.Now()
+		ch := make(chan error, 1)
+		go func() { ch <- w.conn.Close() }()
+		select {
+		case err := <-ch:
+			return err, time.Since(st)
+		case <-time.After(c10CloseTimeout + 3*time.Second):
+			buf := make([]byte, 1<<20)
+			n := runtime.Stack(buf, true)
+			fail("%s has not returned after %v (close timeout %v)\n%s", what, c10CloseTimeout+3*time.Second, c10CloseTimeout, buf[:n])
+			return nil, 0
+		}
 	}
 	t0 := time.Now()
 	logf := func(f string, a ...any) {
@@ -405,12 +427,8 @@ func runC10(rt *rapid.T) {
 			}
 		}
 		// ---- sequential phase: Close is bounded and idempotent, nothing is left behind ----
-		st := time.Now()
-		err1 := w.conn.Close()
-		d1 := time.Since(st)
-		st = time.Now()
-		err2 := w.conn.Close()
-		d2 := time.Since(st)
+		err1, d1 := closeBounded("Close")
+		err2, d2 := closeBounded("the second Close")
 		logf("Close -> %v (%v); Close again -> %v (%v)", err1, d1.Round(time.Millisecond), err2, d2.Round(time.Millisecond))
 		if d1 > c10CloseTimeout+3*time.Second {
 			fail("Close took %v, close timeout is %v", d1, c10CloseTimeout)
@@ -470,7 +488,7 @@ func runC10(rt *rapid.T) {
 					if oerr = w.conn.Open(ctx, hsms.OpenWaitSelected); oerr == nil {
 						break
 					}
-					_ = w.conn.Close()
+					_, _ = closeBounded("Close after a failed re-Open")
 					time.Sleep(5 * time.Millisecond)
 				}
 			} else {
@@ -528,7 +546,7 @@ func runC10(rt *rapid.T) {
 				fail("after a refused Open during reconnect the connection never came back within 5 s although the peer kept trying (State()=%v; dial/listen events since the refused Open: %v)", w.conn.State(), w.nw.Events()[neDrop:])
 			}
 			logf("recovered after drop + refused Open")
-			if e := w.conn.Close(); e != nil {
+			if e, _ := closeBounded("Close of the reopened connection"); e != nil {
 				fail("Close of the reopened connection: %v", e)
 			}
 			close(stop)
